@@ -46,6 +46,21 @@ CHECKS = {
          "All sequences of up to 3 (quick) / 4 (thorough) tokens from an 82-token alphabet (one representative per token kind, error bytes, non-ASCII, conflict markers, multi-line string, overflowing literals) as a whole file with and without trailing newline; all sequences of up to 2 / 3 tokens in each hole of 10 valid scaffolds (top level, statement, operand, argument, blob field, case arm, type annotation, blob declaration, function header); for the 60 smallest (quick) / all ~360 (thorough) files of tests/ and std/: every single-token deletion, replacement and insertion by each of 28 critical tokens, adjacent swap, truncation before every token and at every character (std bundled for the test programs, imports resolved on disk); 62 project shapes (missing / cyclic / conflicting imports, exports.sy, std-named files, empty files, declarations inside functions; with and without std); 16 nesting ladders at depths 1..64 with a growth check. For each input: the call returns within the deadline, yields Ok or a non-empty error list, does not panic or kill the process, and every error renders (sources absent and materialised on disk).",
          "Worker processes are supervised by progress messages; a death or stall is pinned to one case by re-running the last batch case by case (an unreproducible death is a machinery error, exit 2). After 6 process deaths/hangs the exploration stops early and says so (exhaustive=false). Nothing is claimed for longer random text or nesting deeper than 64.",
          "DESIGN.md §4 C07"),
+ "C01": ("model_checking",
+         "bounded exhaustive enumeration of well-typed programs (derivation trees of a typed grammar, every action sequence over themed menus), each compiled by the real compiler, executed under a Lua 5.3 stand-in and compared with a reference interpreter (explicit reference model; every model trace validated against the implementation)",
+         "Expression families: every well-typed expression with exactly n operator nodes (n <= 2 quick / 3 thorough in the print context, n <= 1 / 2 in all 24 statement contexts: local/global definition, function result, parameter shadowing, closure capture before a later assignment, branches, loops, unused statement, tuple/list/blob/variant element, assignment and compound assignment, value held across a side-effecting call, case arm, early return, method through self, closure per loop iteration, short-circuit operand, return from inside a loop, argument evaluation order) over ints, floats, bools, strings, tuples, blobs, enum values and lists. Statement families: every sequence of up to 3 / 4 actions over menus for loops with break/continue/ret, closures over mutable variables, blobs with aliasing and self, enums with case bindings, globals mutated from functions, plus 37 recursion templates at depth 1-3. Each program is printed, compiled, its Lua run under MiniLua and the printed lines + outcome class (done / failed <=> / <!> with line) compared with RefSylt.",
+         "Trusted: MiniLua as stand-in for lua5.3 (604-snippet conformance corpus; the repository's 315 program tests pass under it), RefSylt's semantic decisions (DESIGN.md §3.3), the surface printer. Programs whose meaning depends on the read order inside one assignment, that print NaN / multi-field blobs / functions, or that exceed the budgets are skipped and counted. Known finding F-01 is listed in known_findings.json.",
+         "DESIGN.md §3.2-3.4, §4 C01"),
+ "C06": ("exploration",
+         "exhaustive enumeration of program families and lexical corner families, the Lua loader (full 5.3 grammar + static limits) as invariant on every successfully compiled output",
+         "The loader of the Lua stand-in is run on the output of every successful compile of all C01 program families and of dedicated lexical families: 22 blob field names (every Lua keyword that is a legal Sylt identifier, library and metatable names), every string literal content of length <= 3 / 4 over an 18-character alphabet (backslash, quote-like characters, %, brackets, tab, LF, CR, non-ASCII, U+2028), 25 numeric literal forms (i64 max, 1e308, 1e309, 1e-400, .5, 5., exponents), 48 expression kinds as unused statements at first/middle/last position in void and value-returning functions, and bodies/files of n statements, definitions, functions, if-statements and operands for n up to 250 / 400, with and without std.",
+         "Trusted: MiniLua's loader (grammar, goto/label visibility, 200 active locals, 255 upvalues, 200 syntactic levels; register pressure not modelled). Known finding F-06d (more than 200 Lua locals for large bodies) is listed in known_findings.json.",
+         "DESIGN.md §4 C06"),
+ "C10": ("model_checking",
+         "bounded exhaustive enumeration of recursion / closure / higher-order programs under a distinct-values discipline, Lua trace vs reference interpreter trace",
+         "The recursion templates hold a value across the recursive call at each of 37 expression positions (both sides of operators, argument slots, tuple/list/blob elements, if condition and branch values, case scrutinee / binding / arm value, and/or operands, plain / compound / field assignment, locals, closures created per activation, loops, higher-order re-entry, early return) at depths 1-3 with and without tracing, plus mutual recursion through a mutable global function variable and a method re-entering through self; every action sequence (<= 3 / 4) of the closure family (two closures sharing a variable, counters from a factory, closures created per loop iteration, capture of parameters and of a global) and of the blob-method, enum-binding and global families; every expression of the expression families in the call/closure/return contexts. Every level, held value and closure instance has a different value and all intermediate results are printed, so interference between activations changes the trace.",
+         "Trusted as for C01. The number of emitted chunks that assign undeclared V-names is reported as a diagnostic, not a verdict (a legitimate scheme may keep Sylt globals in Lua globals).",
+         "DESIGN.md §4 C10"),
 }
 
 checks = []
